@@ -129,40 +129,9 @@ func C06(c *core.Ctx) {
 	if nSucc == 0 {
 		c.Ob("C06-R1", fd.Name()+"#success", fd.Decl.Pos(), false, "no success return")
 	}
-	// range check before the combination: the multiplication v*10^e must lie where a comparison against MaxInt64 was found false
-	var mul *ast.BinaryExpr
-	ast.Inspect(fd.Decl.Body, func(n ast.Node) bool {
-		if be, ok := n.(*ast.BinaryExpr); ok && be.Op == token.MUL {
-			if _, isAssign := n.(*ast.BinaryExpr); isAssign && mul == nil {
-				if cl, ok := ast.Unparen(be.Y).(*ast.CallExpr); ok {
-					if fn := core.Callee(info, cl); fn != nil && fn.Name() == "intPow" {
-						mul = be
-					}
-				}
-			}
-		}
-		return true
-	})
-	if mul == nil {
-		c.Undecided("C06-R1", fd.Name()+"#range-check", fd.Decl.Pos(), "the combination of integer and decimal part was not found")
-	} else {
-		node := ff.Flow.EnclosingNode(mul)
-		checked := false
-		for leaf, val := range ff.Flow.CondsAt(node) {
-			if val {
-				continue
-			}
-			ast.Inspect(leaf, func(n ast.Node) bool {
-				if se, ok := n.(*ast.SelectorExpr); ok && se.Sel.Name == "MaxInt64" {
-					checked = true
-				}
-				return true
-			})
-		}
-		// go/cfg keeps `a || b || c` as one condition: its falsity implies each disjunct false
-		c.Ob("C06-R1", fd.Name()+"#range-check", mul.Pos(), checked,
-			"the integer part is multiplied by 10^decimals and added to the decimal part without a range check against math.MaxInt64: over-long digit strings wrap around and are read as a different number")
-	}
+	// range check before the combination: the product A*S (S a power of ten) to which the
+	// decimal part D is added must lie where `A > (MaxInt64 - D) / S` was found false
+	c06RangeCheck(c, fd, ff)
 
 	// R2
 	ppat, _, ok := schemaPattern(p, "Percentage")
@@ -372,4 +341,135 @@ func onlyConjunctions(e ast.Expr) bool {
 		}
 	}
 	return true
+}
+
+// c06RangeCheck decides the overflow guard of the amount reader. The integer
+// part A is scaled by S = 10^e and the decimal part D added; the result fits
+// int64 iff A <= (MaxInt64 - D) / S (D >= 0). The rule finds the product and the
+// addend (in one expression or in `v = v*S; v += D`), resolves S through a local
+// definition, and requires that comparison — with the same A, D and S — to be
+// known false where the product is computed. A guard that leaves D out accepts
+// strings just above the limit, which then wrap around.
+func c06RangeCheck(c *core.Ctx, fd *core.FuncDecl, ff *core.FuncFlow) {
+	info := fd.Pkg.TypesInfo
+	p := c.P
+	key := fd.Name() + "#range-check"
+	ld := core.NewLocalDefs(info, fd.Decl.Body)
+	isPow := func(e ast.Expr) bool {
+		e = ast.Unparen(e)
+		if v := core.VarOf(info, e); v != nil {
+			for _, d := range ld.All(v) {
+				if d.RHS != nil {
+					e = ast.Unparen(d.RHS)
+				}
+			}
+		}
+		if cl, ok := e.(*ast.CallExpr); ok {
+			if fn := core.Callee(info, cl); fn != nil && fn.Name() == "intPow" {
+				return true
+			}
+		}
+		return false
+	}
+	sameScale := func(a, b ast.Expr) bool {
+		if va, vb := core.VarOf(info, a), core.VarOf(info, b); va != nil || vb != nil {
+			return va == vb
+		}
+		return types.ExprString(ast.Unparen(a)) == types.ExprString(ast.Unparen(b))
+	}
+	var mul *ast.BinaryExpr
+	var addend *types.Var
+	var mulStmt *ast.AssignStmt
+	ast.Inspect(fd.Decl.Body, func(n ast.Node) bool {
+		as, ok := n.(*ast.AssignStmt)
+		if !ok || len(as.Rhs) != 1 || mul != nil {
+			return true
+		}
+		rhs := ast.Unparen(as.Rhs[0])
+		// v = A*S + D
+		if add, ok := rhs.(*ast.BinaryExpr); ok && add.Op == token.ADD {
+			for _, pair := range [][2]ast.Expr{{add.X, add.Y}, {add.Y, add.X}} {
+				if m, ok := ast.Unparen(pair[0]).(*ast.BinaryExpr); ok && m.Op == token.MUL && isPow(m.Y) {
+					mul, addend, mulStmt = m, core.VarOf(info, pair[1]), as
+				}
+			}
+		}
+		// v = A*S  (the addend follows)
+		if m, ok := rhs.(*ast.BinaryExpr); ok && m.Op == token.MUL && isPow(m.Y) && mul == nil {
+			mul, mulStmt = m, as
+		}
+		return true
+	})
+	if mul == nil {
+		c.Undecided("C06-R1", key, fd.Decl.Pos(), "no product of the integer part with a power of ten found")
+		return
+	}
+	dest := core.VarOf(info, mulStmt.Lhs[0])
+	if addend == nil && dest != nil {
+		// v += D / v = v + D after the product
+		ast.Inspect(fd.Decl.Body, func(n ast.Node) bool {
+			as, ok := n.(*ast.AssignStmt)
+			if !ok || as.Pos() <= mulStmt.Pos() || len(as.Lhs) != 1 || core.VarOf(info, as.Lhs[0]) != dest || addend != nil {
+				return true
+			}
+			if as.Tok == token.ADD_ASSIGN {
+				addend = core.VarOf(info, as.Rhs[0])
+			} else if add, ok := ast.Unparen(as.Rhs[0]).(*ast.BinaryExpr); ok && add.Op == token.ADD {
+				if core.VarOf(info, add.X) == dest {
+					addend = core.VarOf(info, add.Y)
+				} else if core.VarOf(info, add.Y) == dest {
+					addend = core.VarOf(info, add.X)
+				}
+			}
+			return true
+		})
+	}
+	if addend == nil {
+		c.Undecided("C06-R1", key, mul.Pos(), "the decimal part added to the scaled integer part was not identified")
+		return
+	}
+	intPart := core.VarOf(info, mul.X)
+	facts := map[ast.Expr]bool{}
+	if node := ff.Flow.EnclosingNode(mul); node != nil {
+		for l, v := range ff.Flow.CondsAt(node) {
+			facts[l] = v
+		}
+	}
+	isMax := func(e ast.Expr) bool {
+		se, ok := ast.Unparen(e).(*ast.SelectorExpr)
+		return ok && se.Sel.Name == "MaxInt64"
+	}
+	checked, partial := false, false
+	for l, v := range facts {
+		be, ok := ast.Unparen(l).(*ast.BinaryExpr)
+		if !ok || v {
+			continue
+		}
+		lhs, rhs := be.X, be.Y
+		switch be.Op {
+		case token.GTR:
+		case token.LSS:
+			lhs, rhs = rhs, lhs
+		default:
+			continue
+		}
+		if intPart == nil || core.VarOf(info, lhs) != intPart {
+			continue
+		}
+		q, ok := ast.Unparen(rhs).(*ast.BinaryExpr)
+		if !ok || q.Op != token.QUO || !sameScale(q.Y, mul.Y) {
+			continue
+		}
+		if sub, ok := ast.Unparen(q.X).(*ast.BinaryExpr); ok && sub.Op == token.SUB && isMax(sub.X) && core.VarOf(info, sub.Y) == addend {
+			checked = true
+		} else if isMax(q.X) {
+			partial = true
+		}
+	}
+	why := "the integer part is multiplied by 10^decimals and added to the decimal part without the range check `int > (math.MaxInt64 - dec) / 10^decimals` having been found false: over-long digit strings wrap around and are read as a different number"
+	if !checked && partial {
+		why = "the range check before the product compares against math.MaxInt64 / 10^decimals only and leaves the decimal part out: a string whose integer part is exactly at the limit and whose decimals exceed the remainder is accepted and wraps around"
+	}
+	c.Ob("C06-R1", key, mul.Pos(), checked, why)
+	_ = p
 }
